@@ -406,6 +406,12 @@ func handle(rq *request) *response {
 	// every second request hands the bytes over as the front part of a larger buffer (a read buffer
 	// with spare capacity, stale bytes behind the data): re-slicing past len(data) does not panic
 	// there, it reads what is not part of the input
+	if len(data) == 0 && ws.n%4 == 1 {
+		data = nil // "no data" handed over as a nil slice now and then
+	}
+	if len(topics) == 0 && ws.n%4 == 3 {
+		topics = nil
+	}
 	if ws.n%2 == 0 {
 		data = withSlack(data)
 		for i := range topics {
@@ -487,6 +493,13 @@ func handle(rq *request) *response {
 			}
 			var jb []byte
 			var jerr error
+			if alt == 0 {
+				if p := guard(func() { _, jerr = s.SerializeInterface(tree) }); p != "" {
+					rs.JSONBad = fmt.Sprintf("SerializeInterface mode %d panicked: %s", mode, p)
+				} else if jerr != nil {
+					rs.JSONBad = fmt.Sprintf("SerializeInterface mode %d: %s", mode, jerr)
+				}
+			}
 			if p := guard(func() { jb, jerr = s.SerializeJSON(tree) }); p != "" {
 				rs.JSONBad = fmt.Sprintf("mode %d/%d panicked: %s", mode, alt, p)
 			} else if jerr != nil {
@@ -495,6 +508,13 @@ func handle(rq *request) *response {
 				rs.JSONBad = fmt.Sprintf("mode %d/%d: output is not valid JSON", mode, alt)
 			}
 		}
+	}
+
+	// ... and a formatting mode that does not exist is an error, not a panic
+	if p := guard(func() {
+		_, _ = abi.NewSerializer().SetFormattingMode(abi.FormatAsSelfDescribingArrays + 1).SerializeJSON(tree)
+	}); p != "" {
+		rs.JSONBad = "unknown formatting mode panicked: " + p
 	}
 
 	// oracle: if the tree re-encodes, decoding that encoding yields the same tree.  (Event trees mix
@@ -1136,7 +1156,7 @@ func main() {
 	d.st.Extra["coq_cases"] = d.w.Count()
 	d.st.Extra["max_alloc_over_bound"] = d.maxRatio
 	d.st.Extra["alloc_bound"] = fmt.Sprintf("bytes <= %d*B(type,len)+%d (Go side); bytes <= alloc_per_unit*model_cost+slack (RunC11.v)", allocPerCell, allocSlack)
-	d.st.Rule = "valid specification encodings of random values for ~170 systematic type shapes (every two-level stacking of T[], T[2], (T), (uint8,T), (T,address) over static and dynamic leaves) and random types to depth 4; each offset/count/byte-length word replaced by the 14 boundary values of the quantifier and by the decoder's guard flip points for that position; truncation/extension at word boundaries +-1; word-structured and plain random bytes up to 64 KiB; call data with right/wrong/short selectors; events with topic lists of length 0..5 and widths 0/31/32/33; revert data against 0..3 error definitions. distinct_nontrivial = distinct (entry point, type, data) with more than 32 bytes of data"
+	d.st.Rule = "valid specification encodings of random values for ~170 systematic type shapes (every two-level stacking of T[], T[2], (T), (uint8,T), (T,address) over static and dynamic leaves) and random types to depth 4; each offset/count/byte-length word replaced by the 14 boundary values of the quantifier and by the decoder's guard flip points for that position; truncation/extension at word boundaries +-1; word-structured and plain random bytes up to 64 KiB; call data with right/wrong/short selectors; events with topic lists of length 0..5 and widths 0/31/32/33; revert data against 0..3 error definitions; directed (round 3): every elementary reader x dirty padding / exact fit / one byte short or long at four positions, bytes/string payloads ending exactly at the end of the data, every marked word of 19 nested shapes (empty, minimal, small values) x the flip points of the guard that reads it, head-occupying element types x hostile counts, one indexed input of every type x topic widths 0/1/20/31/32/33/64. The worker keeps the parsed definition objects across requests, repeats every call, hands every second input over with spare capacity behind it, overwrites the data buffer after the call, re-reads retained trees later and ends with a concurrent section. distinct_nontrivial = distinct (entry point, type, data) with more than 32 bytes of data"
 	if err := d.st.Write(filepath.Join(*out, "stats_C11.json")); err != nil {
 		panic(err)
 	}
@@ -1161,12 +1181,17 @@ func (d *driver) replay(path, header string) {
 	json.Unmarshal(rp.Case, &withReq)
 	if withReq.Request != nil && !strings.HasSuffix(withReq.Request.Data, "...") {
 		rq := withReq.Request
-		rs, died := d.wk.do(rq, 60*time.Second)
-		if died != "" {
-			fmt.Println("implementation:", died)
-		} else {
-			b, _ := json.MarshalIndent(rs, "", " ")
-			fmt.Println("implementation:", string(b))
+		// twice: the worker hands the bytes over exactly sized the first time and with spare capacity
+		// behind them the second time, and the second run uses the definition objects of the first
+		for pass := 0; pass < 2; pass++ {
+			rs, died := d.wk.do(rq, 60*time.Second)
+			if died != "" {
+				fmt.Println("implementation:", died)
+				d.wk = startWorker()
+			} else {
+				b, _ := json.MarshalIndent(rs, "", " ")
+				fmt.Printf("implementation (run %d): %s\n", pass+1, string(b))
+			}
 		}
 		// return data / call data: write the case again so that ./check evaluates the model on it
 		if t, err := parseSig(withReq.Type); err == nil && t.K == kTuple && (rq.Kind == "dec" || rq.Kind == "call") {
